@@ -4,6 +4,9 @@ import (
 	"encoding/json"
 	"fmt"
 	"os"
+	"strings"
+
+	"github.com/innovationb1ue/RedisGO/memdb"
 
 	rt "github.com/innovationb1ue/RedisGO/verifrt"
 	"verif/ev"
@@ -27,6 +30,23 @@ func replayFile(path string) int {
 	if err := json.Unmarshal(b, &v); err != nil {
 		fmt.Fprintln(os.Stderr, err)
 		return 2
+	}
+	// replay documents of the sweeps (not programs of the BFS)
+	var alt struct {
+		Replay struct {
+			Phase    string   `json:"phase"`
+			Sequence string   `json:"sequence"`
+			Prop     string   `json:"prop"`
+			PreState string   `json:"prestate"`
+			Args     []string `json:"args"`
+		}
+	}
+	json.Unmarshal(b, &alt)
+	if alt.Replay.Phase == "shape-search" && alt.Replay.Sequence != "" {
+		return replayShape(alt.Replay.Sequence)
+	}
+	if alt.Replay.Prop == "C04" && alt.Replay.PreState != "" {
+		return replayC04(alt.Replay.PreState, alt.Replay.Args, v.Kind)
 	}
 	rd := v.Replay
 	spec := &Spec{Prop: rd.Prop, ShardNum: rd.ShardNum, TimersOff: rd.TimersOff, TTLTolMs: 1000, NoObservers: true}
@@ -75,6 +95,82 @@ func replayFile(path string) int {
 	fmt.Printf("reproduced %d/2\n", repro)
 	_ = ev.Root
 	if repro == 2 {
+		return 1
+	}
+	return 0
+}
+
+// replayShape re-executes an operation sequence of the AVL shape search ("ins@3 del@0 ...") twice.
+func replayShape(seq string) int {
+	var ops []memdb.VerifTreeOp
+	for _, f := range strings.Fields(seq) {
+		var r int
+		switch {
+		case strings.HasPrefix(f, "ins@"):
+			fmt.Sscan(f[4:], &r)
+			ops = append(ops, memdb.VerifTreeOp{Rank: r})
+		case strings.HasPrefix(f, "del@"):
+			fmt.Sscan(f[4:], &r)
+			ops = append(ops, memdb.VerifTreeOp{Del: true, Rank: r})
+		}
+	}
+	n := 0
+	for i := 0; i < 2; i++ {
+		shape, nodes, inv := memdb.VerifTreeShape(ops)
+		fmt.Printf("%s -> shape %s (%d nodes), invariants violated: %v\n", seq, shape, nodes, inv)
+		if inv != nil {
+			n++
+		}
+	}
+	fmt.Printf("reproduced %d/2\n", n)
+	if n == 2 {
+		return 1
+	}
+	return 0
+}
+
+// replayC04 re-executes one input of the C04 sweep from its pre-state twice: panic, blocked call
+// or leaked lock reproduce the finding.
+func replayC04(pre string, args []string, kind string) int {
+	h.Boot(shardNum, 2)
+	rt.CurMode = rt.Controlled
+	ks := h.Keys(shardNum)
+	spec := &Spec{Prop: "C04", ShardNum: shardNum, Keys: []string{ks.K0, ks.K1, ks.K2}, TimersOff: true, TTLTolMs: 1000, Lax: true, NoObservers: true}
+	var seed *Seed
+	for _, list := range [][]Seed{c04PreStates(ks.K0), c04DeepPreStates(ks.K0, ks.K1)} {
+		for i := range list {
+			if list[i].Name == pre {
+				seed = &list[i]
+			}
+		}
+	}
+	if seed == nil {
+		fmt.Println("unknown pre-state", pre)
+		return 2
+	}
+	n := 0
+	for round := 0; round < 2; round++ {
+		x := newInst(spec)
+		for _, o := range seed.Prog {
+			if len(o.A) == 0 {
+				x.w.Advance(o.AdvMs * 1e6)
+				continue
+			}
+			x.exec(o.A, 5000)
+		}
+		r := x.exec(h.B(args...), 3000)
+		held := x.mgr.CurrentDB.VerifLocksHeld()
+		fmt.Printf("[%s] %q -> reply %q panic=%v blocked=%v locks held=%v\n", pre, args, r.reply, r.panicRec != nil, r.blocked, held)
+		if r.panicRec != nil {
+			fmt.Printf("    panic %s in %s\n", r.panicRec.Value, r.panicRec.Func)
+		}
+		if r.panicRec != nil || r.deadlock || len(held) > 0 {
+			n++
+		}
+		x.close()
+	}
+	fmt.Printf("reproduced %d/2 (%s)\n", n, kind)
+	if n == 2 {
 		return 1
 	}
 	return 0
